@@ -17,8 +17,10 @@ C18TXT = ("PARTIAL. Decided, on simulated state only: Hedger(BlackScholes(d)) an
           "dt from 1/365 to 0.25 and cost zero/positive (F9); derivative-bound module.price()/delta() over the full simulated state are NaN-free; at "
           "the maturity column (and at every column of a flat market) the price equals the payoff that is then certain, and wherever time to maturity or volatility is zero off the payoff kinks the delta equals its limiting value; P&L with a listed, "
           "Black-Scholes-priced hedging instrument is finite. A non-finite hedger result is attributed to the first pricing-module method that is "
-          "non-finite on that state and to the market condition there (zero volatility / zero time / far from strike). NOT decided: stand-alone "
-          "function clauses not reached by simulated state (limit of every delta at arbitrary arguments, rejection of negative arguments).")
+          "non-finite on that state and to the market condition there (zero volatility / zero time / far from strike). Rejection of negative time to "
+          "maturity / volatility is probed as an invariant along the history (18 fixed calls incl. Python-scalar forms, also after a hedging run was "
+          "aborted by a raising model - F8); the volatility of the live stock is switched to zero and back between operations. NOT decided: stand-alone "
+          "function clauses for arbitrary arguments not reached by simulated state (limit of every delta everywhere).")
 TECH = "deterministic simulation with fault injection: "
 CLAIMED = {
     "C01": {
@@ -34,7 +36,7 @@ CLAIMED = {
         "technique": TECH + "relational checks between API calls on RNG-replayed identical paths, restart fault",
     },
     "C10": {
-        "text": "PARTIAL. Decided: with the normals supplied and recorded by the simulator through the `engine` seam, every step of generate_brownian / generate_geometric_brownian, and of generate_merton_jump / generate_kou_jump / MertonJumpStock / KouJumpStock at zero jump intensity, is explained by an unused column of the supplied normals through the exact SDE solution (any injective column map, same for all paths); with the engine stalled (F11: zeros) the path is the closed-form noise-free curve; sigma = 0 skeletons of Vasicek (theta + (x0 - theta)exp(-kappa t) from any x0) and of the local-volatility Euler scheme. NOT decided: every distributional clause of the property (means, variances, correlations, martingale property, QE branch moments, rough-Bergomi forward variance) - those need large-sample statistics with error bars, which is statistical testing, not deterministic simulation; the rough-Bergomi and Vasicek-law defects named in the property text are therefore outside this check (the Vasicek recursion defect was found through the skeleton and C11, and fixed).",
+        "text": "PARTIAL. Decided: with the normals supplied and recorded by the simulator through the `engine` seam, every step of generate_brownian / generate_geometric_brownian, and of generate_merton_jump / generate_kou_jump / MertonJumpStock / KouJumpStock at zero jump intensity, is explained by an unused column of the supplied normals through the exact SDE solution (any injective column map, same for all paths); with the engine stalled (F11: zeros) the path is the closed-form noise-free curve; sigma = 0 skeletons of Vasicek (theta + (x0 - theta)exp(-kappa t) from any x0) and of the local-volatility Euler scheme. Also: instruments that were built with other parameters / engine / dtype, simulated, re-parameterised by attribute assignment and cast follow the current model; the drift compensator of the Merton and Kou models is read off the jump-free steps of a stalled-engine run with rare jumps (closed form, no statistics); a local-volatility simulation aborted by its sigma_fn (F8) leaves the previous complete sample. NOT decided: every distributional clause of the property (means, variances, correlations, martingale property, QE branch moments, rough-Bergomi forward variance) - those need large-sample statistics with error bars, which is statistical testing, not deterministic simulation; the rough-Bergomi and Vasicek-law defects named in the property text are therefore outside this check (the Vasicek recursion defect was found through the skeleton and C11, and fixed).",
         "design_ref": "DESIGN.md 6/C10",
         "note": "Partial claim: clause 1 and the noise-free skeleton only. Implied normals compared within the rounding bound of the cumulative sum.",
         "technique": TECH + "simulator-owned random engine (recorded / stalled), step-by-step SDE reference",
